@@ -7,6 +7,7 @@ import (
 	"os"
 	"os/exec"
 	"path/filepath"
+	"regexp"
 	"strings"
 	"syscall"
 	"time"
@@ -112,8 +113,45 @@ attempts:
 		e.fail("panic", "`rare %s` on input %s died with a Go panic:\n%s", strings.Join(cs.Args, " "), run.Q(cs.Input), clip(se[i:], 1500))
 	} else if i := strings.Index(se, "fatal error: "); i >= 0 && strings.Contains(se, "goroutine ") {
 		e.fail("panic", "`rare %s` on input %s died with a fatal runtime error:\n%s", strings.Join(cs.Args, " "), run.Q(cs.Input), clip(se[i:], 1500))
+	} else {
+		e.checkFormatWiring(stdout.String(), se)
 	}
 	return classes
+}
+
+var bracketNum = regexp.MustCompile(`<-?[0-9][0-9,]*>`)
+var matchedSome = regexp.MustCompile(`Matched: ([1-9][0-9,]*) /`)
+
+// checkFormatWiring: "displayed numbers equal the aggregated numbers under the CHOSEN formatter" end to
+// end. The generated keys are \w+ and never contain '<', so with `--format "<{0}>"` every displayed
+// number of a run that matched something carries the brackets, and without --format none does.
+func (e *env) checkFormatWiring(out, se string) {
+	cs, c := e.cs, e.c
+	fm, has := "", false
+	for i, a := range cs.Args {
+		if a == "--format" && i+1 < len(cs.Args) {
+			fm, has = cs.Args[i+1], true
+		}
+	}
+	if len(cs.Args) == 0 || cs.Args[0] == "reduce" || !matchedSome.MatchString(se+"\n"+out) {
+		return
+	}
+	// the positive claim only where numbers are certainly displayed: histogram, bar graph and table rows
+	// with non-zero row/column limits (a heatmap draws glyphs, a sparkline with no column has no numbers)
+	numbersShown := cs.Args[0] == "histo" || cs.Args[0] == "bars" || cs.Args[0] == "table"
+	for i, a := range cs.Args {
+		if (a == "--cols" || a == "--rows" || a == "-n") && i+1 < len(cs.Args) && cs.Args[i+1] == "0" {
+			numbersShown = false
+		}
+	}
+	c.Count("cli_format_wiring_checked", 1)
+	got := bracketNum.MatchString(out)
+	switch {
+	case has && fm == "<{0}>" && !got && numbersShown:
+		e.fail("number", "`rare %s` matched lines but no displayed number carries the --format \"<{0}>\" decoration; output:\n%s", strings.Join(cs.Args, " "), clip(out, 600))
+	case !has && got:
+		e.fail("number", "`rare %s` (no --format) displays a number decorated like <n>; output:\n%s", strings.Join(cs.Args, " "), clip(out, 600))
+	}
 }
 
 // cpuSeconds: user+system CPU time of a live process (0 when unknown).
